@@ -50,6 +50,7 @@ type cRead struct {
 	val       string
 	found     bool
 	pts       []kvmodel.KV
+	flushedWAL bool          // checkpoint reads: taken WithFlushedWAL
 	spans     []kvmodel.Span // range keys seen by the same iterator (profiles with range keys)
 	hasSpans  bool
 	startStep int
@@ -277,6 +278,8 @@ func (h *dbHarness) execConc(c int, op *DBOp) {
 		}
 		cg.seq = h.lastIngestSeq(paths)
 		cg.ackStep = h.step()
+	case "ccheckpoint":
+		h.concCheckpoint(c, op)
 	case "cget":
 		h.concGet(c, op.Key)
 	case "cscan":
@@ -448,7 +451,10 @@ func (h *dbHarness) verifyConcurrent() {
 		}
 		lo, hi := 0, 0
 		for _, g := range done {
-			if g.ackStep <= winStart && pos[g] > lo {
+			if r.kind == "ckpt" && !(r.flushedWAL || g.sync || g.g.Kind != "batch") {
+				// a checkpoint taken without flushing the WAL owes only what was
+				// acknowledged as durable
+			} else if g.ackStep <= winStart && pos[g] > lo {
 				lo = pos[g] // acknowledged before the read began: must be visible (and so must everything before it)
 			}
 			if g.startStep <= winEnd && pos[g] > hi {
@@ -458,7 +464,7 @@ func (h *dbHarness) verifyConcurrent() {
 		if hi < lo {
 			hi = lo
 		}
-		if r.kind != "snapscan" && lastJ[r.client] > lo {
+		if r.kind != "snapscan" && r.kind != "ckpt" && lastJ[r.client] > lo {
 			lo = lastJ[r.client] // visibility never moves backwards for one reader
 		}
 		match := -1
@@ -516,7 +522,7 @@ func (h *dbHarness) verifyConcurrent() {
 			Violation(class, "client %d %s during steps [%d,%d] matches no state reachable by a prefix of the %d committed groups in sequence-number order (allowed prefixes %d..%d: the first %d were acknowledged before the read began): %s%s",
 				r.client, what, r.startStep, r.endStep, n, lo, hi, lo, firstDiff, detail)
 		}
-		if r.kind != "snapscan" {
+		if r.kind != "snapscan" && r.kind != "ckpt" {
 			lastJ[r.client] = match
 		}
 		h.count("check.conc_read", 1)
@@ -643,11 +649,13 @@ func (h *dbHarness) checkWALOrder(done []*cGroup) {
 				break
 			}
 			seq := uint64(hdr.SeqNum)
-			if seq != 0 && seq <= last {
-				Violation("wal-order", "WAL %s holds a batch with sequence number %d after one with %d", n, seq, last)
+			// each batch starts at or after the end of the previous one's
+			// sequence-number range (a batch of LogData only has an empty range)
+			if seq != 0 && seq < last {
+				Violation("wal-order", "WAL %s holds a batch with sequence number %d (count %d) although the previous one's range ends at %d", n, seq, hdr.Count, last)
 			}
 			if seq != 0 {
-				last = seq
+				last = seq + uint64(hdr.Count)
 			}
 			h.count("check.wal_batch", 1)
 		}
@@ -737,4 +745,91 @@ func (h *dbHarness) matchRecoveredConc(k int, pts []kvmodel.KV, spans []kvmodel.
 		desc += fmt.Sprintf("; last acknowledged-durable group: client %d seq=%d count=%d sync=%v acknowledged at disk index %d ops %v", g.client, g.seq, g.count, g.sync, g.ackIdx, g.g.Ops)
 	}
 	return nil, desc
+}
+
+// genCheckpointConc: writers, an ingesting client and a client that takes
+// checkpoints (WithFlushedWAL) while the others commit (C38: "a consistent
+// prefix of the source history").
+func (g *gen) genCheckpointConc() {
+	writers := 1 + g.r.IntN(3)
+	g.cfg.Clients = writers + 2
+	g.cfg.DisableWAL = false
+	g.cfg.FMV = 0
+	g.cfg.ConcRangeKeys = g.r.IntN(3) == 0
+	perW := 4 + g.r.IntN(10)
+	for w := 0; w < writers; w++ {
+		for i := 0; i < perW; i++ {
+			n := 1 + g.r.IntN(3)
+			b := DBOp{C: w + 1, K: "batch", Sync: g.r.IntN(3) == 0, Mode: pick(&g.r, []string{"apply", "commit", "commit"})}
+			for j := 0; j < n; j++ {
+				o := g.pointOp(false)
+				if g.cfg.ConcRangeKeys && g.r.IntN(4) == 0 {
+					o = g.rangeKeyOp()
+				}
+				if o.K == "logdata" {
+					o = DBOp{K: "set", Key: g.key()}
+					o.Val, o.VLen = g.val()
+				}
+				if o.VLen > 600 {
+					o.VLen = 20 + o.VLen%500
+				}
+				b.Sub = append(b.Sub, o)
+			}
+			g.add(b)
+		}
+	}
+	ic := writers + 1
+	for i := 2 + g.r.IntN(5); i > 0; i-- {
+		o := g.ingestOp(false, false)
+		o.C = ic
+		g.add(o)
+		if g.r.IntN(2) == 0 {
+			g.add(DBOp{C: ic, K: "wait", N: 1})
+		}
+	}
+	cc := writers + 2
+	for i := 2 + g.r.IntN(3); i > 0; i-- {
+		g.add(DBOp{C: cc, K: "ccheckpoint", Flag: true, ID: g.newID()})
+		if g.r.IntN(2) == 0 {
+			g.add(DBOp{C: cc, K: "wait", N: 1})
+		}
+	}
+}
+
+// concCheckpoint takes a checkpoint while the other clients run, opens it and
+// records its contents as one read of the concurrent history.
+func (h *dbHarness) concCheckpoint(c int, op *DBOp) {
+	if err := h.disk.MkdirAll("ckpt", 0755); err != nil {
+		h.opErr("mkdir", err)
+		return
+	}
+	h.nCkpt++
+	dir := fmt.Sprintf("ckpt/%04d", h.nCkpt)
+	var copts []pebble.CheckpointOption
+	if op.Flag {
+		copts = append(copts, pebble.WithFlushedWAL())
+	}
+	r := &cRead{client: c, kind: "ckpt", startStep: h.step(), flushedWAL: op.Flag, hasSpans: true}
+	if err := h.db.Checkpoint(dir, copts...); err != nil {
+		h.opErr("checkpoint", err)
+		return
+	}
+	r.endStep = h.step()
+	opts := h.makeOptionsOn(h.disk)
+	opts.EnsureDefaults()
+	cdb, err := pebble.Open(dir, opts)
+	if err != nil {
+		Violation("checkpoint", "opening checkpoint %s (taken while other clients commit) failed: %v", dir, err)
+	}
+	pts, spans, err := readAll(cdb)
+	if cerr := cdb.Close(); err == nil {
+		err = cerr
+	}
+	if err != nil {
+		Violation("checkpoint", "reading checkpoint %s failed: %v", dir, err)
+	}
+	h.disk.RemoveAll(dir)
+	r.pts, r.spans = pts, spans
+	h.conc.reads = append(h.conc.reads, r)
+	h.count("check.checkpoint", 1)
 }
